@@ -340,6 +340,10 @@ type c20fnAn struct {
 	loops  map[*ssa.BasicBlock]*loop // by header
 	trip   map[*ssa.BasicBlock]int64 // max number of back-edge traversals; -1 unknown (filled lazily)
 	tripOK map[*ssa.BasicBlock]bool
+	// tainted: while this analysis ran, a value of a function whose own analysis was still in progress (a caller or a
+	// callee further down the stack) was needed and replaced by its whole type: the result is sound but depends on the
+	// order in which the functions were asked for (see c20_order.go)
+	tainted bool
 }
 
 type c20prover struct {
@@ -358,12 +362,17 @@ type c20prover struct {
 	sites     map[*ssa.Function][]ssa.CallInstruction
 	addrTaken map[*ssa.Function]bool
 	invoked   map[string]bool
+	invokedOn map[string][]types.Type // method name -> the interface types it is called through
+
+	tflag      bool // raised when an answer was coarsened because an analysis was still in progress (c20_order.go)
+	paramTaint map[*ssa.Parameter]bool
+	paramBusy  map[*ssa.Parameter]bool
 }
 
 func newC20Prover(c *Ctx) *c20prover {
 	p := &c20prover{c: c, an: map[*ssa.Function]*c20fnAn{}, facts: map[*ssa.BasicBlock][]Fact{},
 		params: map[*ssa.Parameter]c20iv{}, paramsIP: map[*ssa.Parameter]bool{}, glen: map[*ssa.Global]c20iv{},
-		symSum: map[string][]c20symP{}, symBusy: map[string]bool{}}
+		symSum: map[string][]c20symP{}, symBusy: map[string]bool{}, paramTaint: map[*ssa.Parameter]bool{}, paramBusy: map[*ssa.Parameter]bool{}}
 	p.buildIndex()
 	return p
 }
@@ -413,7 +422,11 @@ func (p *c20prover) def(v ssa.Value) c20iv {
 		return tr
 	}
 	if !fa.done && fa != p.top() {
+		p.tflag = true
 		return tr // a caller that is being analysed further down the stack: nothing is known yet
+	}
+	if fa.done && fa.tainted {
+		p.tflag = true
 	}
 	if r, ok := fa.rng[v]; ok {
 		return r
@@ -736,7 +749,16 @@ func (p *c20prover) analysis(fn *ssa.Function) *c20fnAn {
 		fa.loops[l.Head] = l
 	}
 	p.stack = append(p.stack, fa)
-	defer func() { p.stack = p.stack[:len(p.stack)-1] }()
+	outerFlag := p.tflag
+	p.tflag = false
+	defer func() {
+		p.stack = p.stack[:len(p.stack)-1]
+		fa.tainted = p.tflag
+		p.tflag = outerFlag || fa.tainted
+		if len(p.stack) == 0 {
+			p.dropTainted(fa)
+		}
+	}()
 
 	var vals []ssa.Value
 	for _, b := range fn.DomPreorder() {
@@ -893,6 +915,14 @@ func (p *c20prover) compute(fa *c20fnAn, v ssa.Value) c20iv {
 			return r.meet(tr)
 		}
 		return tr
+	case *ssa.Field:
+		// u.digits of `for _, u := range []struct{...}{...}`: a member of an element of a table of structs
+		if ld, ok := x.X.(*ssa.UnOp); ok && ld.Op == token.MUL {
+			if r, ok := p.memberAt(ld.X, x.Field, 0); ok {
+				return r.meet(tr)
+			}
+		}
+		return tr
 	case *ssa.Call:
 		return p.callResult(x, 0, blk).meet(tr)
 	case *ssa.Extract:
@@ -983,8 +1013,15 @@ func (p *c20prover) resultRange(fn *ssa.Function, idx int) c20iv {
 		return tr
 	}
 	fa := p.analysis(fn)
-	if fa == nil || !fa.done {
+	if fa == nil {
 		return tr
+	}
+	if !fa.done {
+		p.tflag = true
+		return tr
+	}
+	if fa.tainted {
+		p.tflag = true
 	}
 	r := c20empty
 	n := 0
@@ -1005,6 +1042,9 @@ func (p *c20prover) resultRange(fn *ssa.Function, idx int) c20iv {
 func (p *c20prover) paramRange(x *ssa.Parameter) c20iv {
 	tr, _ := c20typeRange(x.Type())
 	if r, ok := p.params[x]; ok {
+		if p.paramBusy[x] || p.paramTaint[x] {
+			p.tflag = true
+		}
 		return r
 	}
 	p.params[x] = tr // recursion guard
@@ -1012,6 +1052,16 @@ func (p *c20prover) paramRange(x *ssa.Parameter) c20iv {
 	if sites == nil {
 		return tr
 	}
+	p.paramBusy[x] = true
+	outerFlag := p.tflag
+	p.tflag = false
+	defer func() {
+		delete(p.paramBusy, x)
+		if p.tflag {
+			p.paramTaint[x] = true
+		}
+		p.tflag = outerFlag || p.tflag
+	}()
 	r := c20empty
 	for _, s := range sites {
 		cc := s.Common()
@@ -1040,6 +1090,13 @@ func (p *c20prover) argAt(a ssa.Value, site ssa.CallInstruction) c20iv {
 		return p.def(a)
 	}
 	if fa, ok := p.an[site.Parent()]; ok && !fa.done {
+		if prm, isP := a.(*ssa.Parameter); isP {
+			// the caller's own parameter passed on (atoi(b, i, pad) -> formatInt(&d, i, pad)): its range comes from the
+			// caller's call sites, not from the caller's analysis (no refinement by the caller's branch conditions:
+			// they may involve values that are still being computed)
+			return p.paramRange(prm).meet(tr)
+		}
+		p.tflag = true
 		return tr
 	}
 	return p.at(a, site.Block())
@@ -1080,6 +1137,7 @@ func (p *c20prover) buildIndex() {
 	p.sites = map[*ssa.Function][]ssa.CallInstruction{}
 	p.addrTaken = map[*ssa.Function]bool{}
 	p.invoked = map[string]bool{}
+	p.invokedOn = map[string][]types.Type{}
 	for _, f := range p.allFns() {
 		eachInstr(f, func(i ssa.Instruction) {
 			cc := callCommon(i)
@@ -1090,6 +1148,7 @@ func (p *c20prover) buildIndex() {
 			}
 			if cc != nil && cc.IsInvoke() {
 				p.invoked[cc.Method.Name()] = true
+				p.invokedOn[cc.Method.Name()] = append(p.invokedOn[cc.Method.Name()], cc.Value.Type())
 			}
 			mc, isMC := i.(*ssa.MakeClosure)
 			for _, op := range i.Operands(nil) {
@@ -1120,13 +1179,55 @@ func (p *c20prover) onlyStatic(fn *ssa.Function) bool {
 	if fn.Parent() != nil {
 		return true // a closure that is never used as a value can only be called where it is made
 	}
-	if token.IsExported(fn.Name()) || isInitFn(fn) || fn.Name() == "main" {
+	if isInitFn(fn) || fn.Name() == "main" {
 		return false
 	}
-	if fn.Signature.Recv() != nil && p.invoked[fn.Name()] {
+	if token.IsExported(fn.Name()) && !c20UnexportedRecv(fn) {
+		return false // callable from code that is not loaded (an exported method of an unexported type is not)
+	}
+	if fn.Signature.Recv() != nil && c20MayBeInvoked(fn, p.invokedOn[fn.Name()]) {
 		return false
 	}
 	return true
+}
+
+// c20UnexportedRecv: fn is a method of a type whose name is not exported: outside its package it can only be reached
+// through an interface (see c20MayBeInvoked) whatever the method is called.
+func c20UnexportedRecv(fn *ssa.Function) bool {
+	recv := fn.Signature.Recv()
+	if recv == nil {
+		return false
+	}
+	t := recv.Type()
+	if p, ok := t.(*types.Pointer); ok {
+		t = p.Elem()
+	}
+	n, ok := t.(*types.Named)
+	return ok && !n.Obj().Exported()
+}
+
+// c20MayBeInvoked: some interface call of a method of this name can select the method fn: the receiver type (or a
+// pointer to it) implements the interface the call goes through. (A method called format on a scratch-buffer type is
+// not reachable through fmt.Formatter's Format or an io.Writer's Write just because the names coincide.)
+func c20MayBeInvoked(fn *ssa.Function, through []types.Type) bool {
+	recv := fn.Signature.Recv()
+	if recv == nil {
+		return false
+	}
+	rt := recv.Type()
+	for _, t := range through {
+		it, ok := t.Underlying().(*types.Interface)
+		if !ok {
+			return true // a type parameter: be conservative
+		}
+		if types.Implements(rt, it) {
+			return true
+		}
+		if _, isPtr := rt.(*types.Pointer); !isPtr && types.Implements(types.NewPointer(rt), it) {
+			return true
+		}
+	}
+	return false
 }
 
 // ---- memory: captured variables, tables ------------------------------------------------------------------------------
@@ -1144,6 +1245,10 @@ func (p *c20prover) load(u *ssa.UnOp) c20iv {
 		}
 	case *ssa.IndexAddr:
 		if r, ok := p.elemRange(a); ok {
+			return r
+		}
+	case *ssa.FieldAddr:
+		if r, ok := p.memberAt(a.X, a.Field, 0); ok {
 			return r
 		}
 	}
@@ -1273,6 +1378,7 @@ func (p *c20prover) storedAt(v ssa.Value, at ssa.Instruction) c20iv {
 		return p.def(v)
 	}
 	if fa, ok := p.an[at.Parent()]; ok && !fa.done && fa != p.top() {
+		p.tflag = true
 		return tr
 	}
 	r := p.at(v, at.Block())
@@ -1604,7 +1710,7 @@ func (p *c20prover) lenOf(x ssa.Value, blk *ssa.BasicBlock, seen map[ssa.Value]b
 		}
 		isLen := func(v ssa.Value) bool {
 			call, ok := v.(*ssa.Call)
-			return ok && calleeName(&call.Call) == "builtin.len" && len(call.Call.Args) == 1 && call.Call.Args[0] == x
+			return ok && calleeName(&call.Call) == "builtin.len" && len(call.Call.Args) == 1 && (call.Call.Args[0] == x || c20sameMemory(call.Call.Args[0], x))
 		}
 		switch {
 		case isLen(a):
@@ -1753,6 +1859,14 @@ func (p *c20prover) globalLen(g *ssa.Global) c20iv {
 		return r
 	}
 	p.glen[g] = c20nat
+	outerFlag := p.tflag
+	p.tflag = false
+	defer func() {
+		if p.tflag {
+			delete(p.glen, g) // computed while an analysis was in progress: not kept
+		}
+		p.tflag = outerFlag || p.tflag
+	}()
 	r := c20empty
 	stores := 0
 	for _, in := range p.globalUses(g) {
@@ -1807,6 +1921,7 @@ func (p *c20prover) tripBound(fa *c20fnAn, l *loop) (int64, bool) {
 		}
 		k := int64(0)
 		good, nBack := true, 0
+		extra := int64(0) // 1 when some back edge is guarded by the carried value itself (for q > 0 { ...; q /= 10 })
 		init := c20empty
 		for e, val := range q.Edges {
 			pred := l.Head.Preds[e]
@@ -1844,8 +1959,13 @@ func (p *c20prover) tripBound(fa *c20fnAn, l *loop) (int64, bool) {
 				k = kk
 			}
 			if !p.nonZeroOnEdge(val, pred, l.Head) {
-				good = false
-				break
+				// not guarded by the quotient (`if q == 0 { break }` after the division) - then by the carried value
+				// itself before the division (`for q > 0 {`, `for q != 0 {`): one more traversal is possible
+				if !p.nonZeroOnEdge(q, pred, l.Head) {
+					good = false
+					break
+				}
+				extra = 1
 			}
 		}
 		if !good || nBack == 0 || k < 2 {
@@ -1868,7 +1988,9 @@ func (p *c20prover) tripBound(fa *c20fnAn, l *loop) (int64, bool) {
 				m = b
 			}
 		}
-		// T = least t with k^t > M; at most T-1 back edges
+		// T = least t with k^t > M. A back edge taken only while the quotient is non-zero: the j-th traversal needs
+		// |q0| / k^j >= 1, so at most T-1 of them. A back edge taken only when the value was non-zero BEFORE the division:
+		// the j-th traversal needs |q0| / k^(j-1) >= 1, so at most T.
 		t := int64(0)
 		pow := big.NewInt(1)
 		kb := big.NewInt(k)
@@ -1876,7 +1998,7 @@ func (p *c20prover) tripBound(fa *c20fnAn, l *loop) (int64, bool) {
 			pow.Mul(pow, kb)
 			t++
 		}
-		n := t - 1
+		n := t - 1 + extra
 		if n < 0 {
 			n = 0
 		}
@@ -2269,6 +2391,14 @@ func (p *c20prover) symSummary(fn *ssa.Function, idx int) []c20symP {
 	}
 	p.symBusy[key] = true
 	defer delete(p.symBusy, key)
+	outerFlag := p.tflag
+	p.tflag = false
+	defer func() {
+		if p.tflag {
+			delete(p.symSum, key) // computed while an analysis was in progress: not kept
+		}
+		p.tflag = outerFlag || p.tflag
+	}()
 	var acc []c20sym
 	first := true
 	eachInstr(fn, func(i ssa.Instruction) {
@@ -2302,7 +2432,7 @@ func (p *c20prover) symSummary(fn *ssa.Function, idx int) []c20symP {
 
 func (p *c20prover) symLE(v ssa.Value, blk *ssa.BasicBlock, X ssa.Value, c int64) bool {
 	for _, s := range p.symUB(v, blk, nil, 0) {
-		if s.X == X && s.c <= c {
+		if s.c <= c && (s.X == X || c20sameMemory(s.X, X)) {
 			return true
 		}
 	}
@@ -2312,7 +2442,7 @@ func (p *c20prover) symLE(v ssa.Value, blk *ssa.BasicBlock, X ssa.Value, c int64
 // ---- the bounds obligations --------------------------------------------------------------------------------------------------
 
 // proveBounds: is the index / slice expression in bounds on every execution? The string says why (or what is missing).
-func (p *c20prover) proveBounds(in ssa.Instruction) (bool, string) {
+func (p *c20prover) proveBounds1(in ssa.Instruction) (bool, string) {
 	blk := in.Block()
 	index := func(x, idx ssa.Value) (bool, string) {
 		n := p.lenOf(x, blk, nil)
@@ -2372,13 +2502,16 @@ func (p *c20prover) proveBounds(in ssa.Instruction) (bool, string) {
 		if lo.hi <= hi.lo {
 			return true, fmt.Sprintf("bounds %s : %s, length %s", lo, hi, n)
 		}
+		if x.Low != nil && p.affineLE(x.Low, x.High, blk) {
+			return true, fmt.Sprintf("bounds %s : %s, length %s, and the low bound is the high bound minus a constant", lo, hi, n)
+		}
 		return false, fmt.Sprintf("low bound in %s may exceed the high bound in %s", lo, hi)
 	}
 	return false, "not an index or slice expression"
 }
 
 // nonZero: the interval of v at its use excludes 0.
-func (p *c20prover) nonZero(v ssa.Value, blk *ssa.BasicBlock) (bool, string) {
+func (p *c20prover) nonZero1(v ssa.Value, blk *ssa.BasicBlock) (bool, string) {
 	r := p.at(v, blk)
 	if r.empty() {
 		return true, "unreachable"
@@ -2387,4 +2520,98 @@ func (p *c20prover) nonZero(v ssa.Value, blk *ssa.BasicBlock) (bool, string) {
 		return r.lo > 0, "divisor in " + r.String()
 	}
 	return r.lo > 0 || r.hi < 0, "divisor in " + r.String()
+}
+
+// affine writes v as a*base + c over the mathematical integers (base == nil: a constant). Only +, - and * with constants
+// and value-preserving conversions are followed, and only where the operation cannot wrap around in its type for the
+// values its operands take at blk (otherwise the step is not followed and v itself is the base).
+func (p *c20prover) affine(v ssa.Value, blk *ssa.BasicBlock, depth int) (base ssa.Value, a, c int64, ok bool) {
+	if k, isK := constInt(v); isK {
+		return nil, 0, k, true
+	}
+	if depth > 6 {
+		return v, 1, 0, true
+	}
+	switch x := v.(type) {
+	case *ssa.BinOp:
+		if !p.exact(x, blk) {
+			return v, 1, 0, true
+		}
+		kx, xK := constInt(x.X)
+		ky, yK := constInt(x.Y)
+		switch {
+		case x.Op == token.ADD && yK, x.Op == token.SUB && yK:
+			b, a1, c1, ok := p.affine(x.X, blk, depth+1)
+			if x.Op == token.SUB {
+				if ky == math.MinInt64 {
+					return v, 1, 0, true
+				}
+				ky = -ky
+			}
+			c2, ok2 := c20add(c1, ky)
+			return b, a1, c2, ok && ok2
+		case x.Op == token.ADD && xK:
+			b, a1, c1, ok := p.affine(x.Y, blk, depth+1)
+			c2, ok2 := c20add(c1, kx)
+			return b, a1, c2, ok && ok2
+		case x.Op == token.MUL && (yK || xK):
+			k, inner := ky, x.X
+			if !yK {
+				k, inner = kx, x.Y
+			}
+			b, a1, c1, ok := p.affine(inner, blk, depth+1)
+			a2, ok2 := c20mul(a1, k)
+			c2, ok3 := c20mul(c1, k)
+			return b, a2, c2, ok && ok2 && ok3
+		}
+	case *ssa.Convert:
+		if isIntType(x.X.Type()) && isIntType(x.Type()) && staticWidens(x.X.Type(), x.Type()) && !c20isU64(x.X.Type()) {
+			return p.affine(x.X, blk, depth+1)
+		}
+	case *ssa.ChangeType:
+		if isIntType(x.X.Type()) {
+			return p.affine(x.X, blk, depth+1)
+		}
+	}
+	return v, 1, 0, true
+}
+
+// exact: the +, - or * of x gives the mathematical result for every value its operands take at blk (no wrap-around in
+// x's type).
+func (p *c20prover) exact(x *ssa.BinOp, blk *ssa.BasicBlock) bool {
+	tr, isInt := c20typeRange(x.Type())
+	if !isInt || c20isU64(x.Type()) {
+		return false
+	}
+	xr, yr := p.at(x.X, blk), p.at(x.Y, blk)
+	if xr.empty() || yr.empty() {
+		return true // unreachable
+	}
+	var r c20iv
+	switch x.Op {
+	case token.ADD, token.SUB:
+		r = c20arithRaw(x.Op, xr, yr)
+	case token.MUL:
+		r = c20empty
+		for _, a := range []int64{xr.lo, xr.hi} {
+			for _, b := range []int64{yr.lo, yr.hi} {
+				m, ok := c20mul(a, b)
+				if !ok {
+					return false
+				}
+				r = r.union(c20pt(m))
+			}
+		}
+	default:
+		return false
+	}
+	return !r.empty() && r.within(tr)
+}
+
+// affineLE: lo <= hi because both are the same multiple of the same value plus constants in that order
+// (s[3*m : 3*m+3]).
+func (p *c20prover) affineLE(lo, hi ssa.Value, blk *ssa.BasicBlock) bool {
+	b1, a1, c1, ok1 := p.affine(lo, blk, 0)
+	b2, a2, c2, ok2 := p.affine(hi, blk, 0)
+	return ok1 && ok2 && b1 == b2 && a1 == a2 && c1 <= c2
 }
